@@ -123,13 +123,18 @@ type Assertion struct {
 	NotBefore     *string
 	NotOnOrAfter  *string
 	// Audiences: one AudienceRestriction per inner slice.
-	Audiences   [][]string
-	NoAuthn     bool
-	NoAuthnCtx  bool
-	SessionIdx  string
-	NoAttrStmt  bool
-	Attrs       []Attr
-	ExtraAttrSt [][]Attr // further AttributeStatements
+	Audiences [][]string
+	// ProxyRestriction (when HasProxy): Count attribute (nil = absent) and the audiences it lists; OneTimeUse adds that condition.
+	HasProxy       bool
+	ProxyCount     *string
+	ProxyAudiences []string
+	OneTimeUse     bool
+	NoAuthn        bool
+	NoAuthnCtx     bool
+	SessionIdx     string
+	NoAttrStmt     bool
+	Attrs          []Attr
+	ExtraAttrSt    [][]Attr // further AttributeStatements
 }
 
 // Response spec.
@@ -232,6 +237,16 @@ func (a *Assertion) Element() *etree.Element {
 			r := c.CreateElement("saml:AudienceRestriction")
 			for _, au := range ar {
 				r.CreateElement("saml:Audience").SetText(au)
+			}
+		}
+		if a.OneTimeUse {
+			c.CreateElement("saml:OneTimeUse")
+		}
+		if a.HasProxy {
+			pr := c.CreateElement("saml:ProxyRestriction")
+			setOpt(pr, "Count", a.ProxyCount)
+			for _, au := range a.ProxyAudiences {
+				pr.CreateElement("saml:Audience").SetText(au)
 			}
 		}
 	}
